@@ -10,15 +10,24 @@ Lib/DecArith.vos Lib/DecArith.vok Lib/DecArith.required_vos: Lib/DecArith.v Lib/
 Lib/DecFacts.vo Lib/DecFacts.glob Lib/DecFacts.v.beautified Lib/DecFacts.required_vo: Lib/DecFacts.v Lib/Base.vo Lib/DecArith.vo
 Lib/DecFacts.vio: Lib/DecFacts.v Lib/Base.vio Lib/DecArith.vio
 Lib/DecFacts.vos Lib/DecFacts.vok Lib/DecFacts.required_vos: Lib/DecFacts.v Lib/Base.vos Lib/DecArith.vos
+Model/AMM.vo Model/AMM.glob Model/AMM.v.beautified Model/AMM.required_vo: Model/AMM.v Lib/Base.vo Lib/DecArith.vo
+Model/AMM.vio: Model/AMM.v Lib/Base.vio Lib/DecArith.vio
+Model/AMM.vos Model/AMM.vok Model/AMM.required_vos: Model/AMM.v Lib/Base.vos Lib/DecArith.vos
 Model/Market.vo Model/Market.glob Model/Market.v.beautified Model/Market.required_vo: Model/Market.v Lib/Base.vo
 Model/Market.vio: Model/Market.v Lib/Base.vio
 Model/Market.vos Model/Market.vok Model/Market.required_vos: Model/Market.v Lib/Base.vos
+Proofs/AMMProofs.vo Proofs/AMMProofs.glob Proofs/AMMProofs.v.beautified Proofs/AMMProofs.required_vo: Proofs/AMMProofs.v Lib/Base.vo Lib/DecArith.vo Lib/DecFacts.vo Model/AMM.vo
+Proofs/AMMProofs.vio: Proofs/AMMProofs.v Lib/Base.vio Lib/DecArith.vio Lib/DecFacts.vio Model/AMM.vio
+Proofs/AMMProofs.vos Proofs/AMMProofs.vok Proofs/AMMProofs.required_vos: Proofs/AMMProofs.v Lib/Base.vos Lib/DecArith.vos Lib/DecFacts.vos Model/AMM.vos
 Proofs/MarketProofs.vo Proofs/MarketProofs.glob Proofs/MarketProofs.v.beautified Proofs/MarketProofs.required_vo: Proofs/MarketProofs.v Lib/Base.vo Model/Market.vo
 Proofs/MarketProofs.vio: Proofs/MarketProofs.v Lib/Base.vio Model/Market.vio
 Proofs/MarketProofs.vos Proofs/MarketProofs.vok Proofs/MarketProofs.required_vos: Proofs/MarketProofs.v Lib/Base.vos Model/Market.vos
+Properties/C05.vo Properties/C05.glob Properties/C05.v.beautified Properties/C05.required_vo: Properties/C05.v Lib/Base.vo Lib/DecArith.vo Model/AMM.vo Proofs/AMMProofs.vo
+Properties/C05.vio: Properties/C05.v Lib/Base.vio Lib/DecArith.vio Model/AMM.vio Proofs/AMMProofs.vio
+Properties/C05.vos Properties/C05.vok Properties/C05.required_vos: Properties/C05.v Lib/Base.vos Lib/DecArith.vos Model/AMM.vos Proofs/AMMProofs.vos
 Properties/C17.vo Properties/C17.glob Properties/C17.v.beautified Properties/C17.required_vo: Properties/C17.v Lib/Base.vo Model/Market.vo Proofs/MarketProofs.vo
 Properties/C17.vio: Properties/C17.v Lib/Base.vio Model/Market.vio Proofs/MarketProofs.vio
 Properties/C17.vos Properties/C17.vok Properties/C17.required_vos: Properties/C17.v Lib/Base.vos Model/Market.vos Proofs/MarketProofs.vos
-Extract/Extract.vo Extract/Extract.glob Extract/Extract.v.beautified Extract/Extract.required_vo: Extract/Extract.v Lib/Base.vo Lib/DecArith.vo Model/Market.vo
-Extract/Extract.vio: Extract/Extract.v Lib/Base.vio Lib/DecArith.vio Model/Market.vio
-Extract/Extract.vos Extract/Extract.vok Extract/Extract.required_vos: Extract/Extract.v Lib/Base.vos Lib/DecArith.vos Model/Market.vos
+Extract/Extract.vo Extract/Extract.glob Extract/Extract.v.beautified Extract/Extract.required_vo: Extract/Extract.v Model/AMM.vo Lib/Base.vo Lib/DecArith.vo Model/Market.vo
+Extract/Extract.vio: Extract/Extract.v Model/AMM.vio Lib/Base.vio Lib/DecArith.vio Model/Market.vio
+Extract/Extract.vos Extract/Extract.vok Extract/Extract.required_vos: Extract/Extract.v Model/AMM.vos Lib/Base.vos Lib/DecArith.vos Model/Market.vos
